@@ -20,13 +20,14 @@ fn ext_of(class: usize, rng: &mut Rng) -> ExtSpec {
         5 => ExtSpec { id: 0x0042, data: rng.bytes(3) }, // known non-final mandatory
         6 => ExtSpec { id: 0x0044, data: vec![] },       // known non-final mandatory, no data
         7 => ExtSpec { id: 0x0045, data: rng.bytes(8) }, // known non-final mandatory, 8 bytes
+        9 => ExtSpec { id: 0x0046, data: vec![] },       // final mandatory without data (like NCR 0x0081)
         _ => ExtSpec { id: 0x0043, data: rng.bytes(2) }, // final mandatory
     }
 }
 
 fn mgr_kind(k: usize) -> TableMgr {
     match k {
-        0 => TableMgr { known: vec![(0x0042, false, 3), (0x0043, true, 2), (0x0044, false, 0), (0x0045, false, 8), (0x0081, true, 0)] },
+        0 => TableMgr { known: vec![(0x0042, false, 3), (0x0043, true, 2), (0x0044, false, 0), (0x0045, false, 8), (0x0046, true, 0), (0x0081, true, 0)] },
         1 => TableMgr { known: vec![(0x0042, false, 3), (0x0081, true, 0)] },
         _ => TableMgr { known: vec![] },
     }
@@ -79,7 +80,9 @@ pub fn run(out: &mut Out, seed: u64, thorough: bool) {
     let mut rng = Rng::new(seed ^ 0xE87);
     let labels = [LA6, LA3, Label::Broadcast];
     // single extensions of every class, then chains of 2..4
-    let mut chains: Vec<Vec<usize>> = (0..9).map(|c| vec![c]).collect();
+    let mut chains: Vec<Vec<usize>> = (0..10).map(|c| vec![c]).collect();
+    chains.push(vec![1, 9]);
+    chains.push(vec![5, 0, 9]);
     let nch = if thorough { 120 } else { 30 };
     for _ in 0..nch {
         let n = rng.range(2, 4);
@@ -91,11 +94,13 @@ pub fn run(out: &mut Out, seed: u64, thorough: bool) {
     }
     for (ci, classes) in chains.iter().enumerate() {
         let exts: Vec<ExtSpec> = classes.iter().map(|c| ext_of(*c, &mut rng)).collect();
-        let last_final = *classes.last().unwrap() == 8;
+        let last_class = *classes.last().unwrap();
+        let last_final = last_class == 8 || last_class == 9;
         let label = labels[ci % 3];
-        let ptype: u16 = if last_final { 0x0043 } else { *rng.pick(&[0x0600u16, 0x0800, 0xFFFF]) };
+        let ptype: u16 = if last_class == 8 { 0x0043 } else if last_class == 9 { 0x0046 } else { *rng.pick(&[0x0600u16, 0x0800, 0xFFFF]) };
         let extlen: usize = exts.iter().map(|e| 2 + e.data.len()).sum::<usize>() - if last_final { 2 } else { 0 };
-        let plen = rng.range(0, 30);
+        // short PDUs matter after a final extension without data: nothing may follow the chain
+        let plen = if last_class == 9 { ci % 3 } else { rng.range(0, 30) };
         let complete_len = 4 + label.len() + extlen + plen;
         for mk in 0..3 {
             // complete packet, exact and larger buffer
@@ -113,6 +118,49 @@ pub fn run(out: &mut Out, seed: u64, thorough: bool) {
         // a PDU that cannot be sent complete even in a large buffer
         if ci % 6 == 0 {
             one(out, &mut rng, &exts, ptype, label, 4090, 4097, 0, "long");
+        }
+    }
+    // plain encap with a signalling protocol type (a final mandatory extension without data in the type
+    // field): PDUs of 0, 1, 2, 5 bytes, complete and fragmented, to a receiver that knows it and one that does not
+    for plen in [0usize, 1, 2, 5, 40] {
+        for (mk, buf) in [(0usize, 64usize), (0, 12), (2, 64)] {
+            let pdu = Pdu::random(out, plen, &mut rng);
+            let mut rx = mk_rx(out, "ext", "signalling", 2, 64, 2, mgr_kind(mk), true);
+            rx.note_id(7);
+            let mut enc = Encapsulator::new(DefaultCrc {});
+            let t = ev_encap(out, &mut enc, &pdu, 7, LA3, 0x0081, buf, None, None);
+            let mut ctx = match &t.res {
+                Some(Ok(EncapStatus::CompletedPkt(_))) => {
+                    rx.ev_peek(out, &t.wire, true);
+                    feed(out, &mut rx, &t.wire, vec![]);
+                    None
+                }
+                Some(Ok(EncapStatus::FragmentedPkt(_, c))) => {
+                    feed(out, &mut rx, &t.wire, vec![]);
+                    Some(*c)
+                }
+                _ => None,
+            };
+            let mut guard = 0;
+            while let Some(c) = ctx {
+                guard += 1;
+                if guard > 10 {
+                    break;
+                }
+                let t = ev_encap_frag(out, &enc, &pdu, &c, 30);
+                ctx = match &t.res {
+                    Some(Ok(EncapStatus::FragmentedPkt(_, c2))) => {
+                        feed(out, &mut rx, &t.wire, vec![]);
+                        Some(*c2)
+                    }
+                    Some(Ok(EncapStatus::CompletedPkt(_))) => {
+                        feed(out, &mut rx, &t.wire, vec![]);
+                        None
+                    }
+                    _ => None,
+                };
+            }
+            rx.ev_drain(out);
         }
     }
     // combinations encap_ext must refuse
@@ -136,7 +184,13 @@ pub fn run(out: &mut Out, seed: u64, thorough: bool) {
         let mut rx = mk_rx(out, "ext", "unknown_mandatory", 2, 64, 2, mgr_kind(1), false);
         let pdu = rng.bytes(10);
         let mut p = complete(&pdu, &[1, 2, 3], false, if k % 2 == 0 { 0x0099 } else { 0x0211 });
-        p.chain = match k % 4 {
+        if k % 5 == 4 {
+            // the unknown mandatory id is the last thing in the packet
+            p.ptype = 0x0099;
+            p.payload = vec![];
+        }
+        p.chain = match k % 5 {
+            4 => vec![],
             0 => vec![0x08, 0x00],
             1 => vec![0xAA, 0xBB, 0x00, 0x99, 0x08, 0x00],
             2 => vec![1, 2, 3, 0x08, 0x00],
